@@ -25,7 +25,7 @@ cleanup() {
 }
 trap cleanup EXIT
 if [ "$patch" != "/dev/null" ]; then
-  git -C "$W/nutsdb" apply "$patch" || { echo "$name: patch does not apply"; exit 2; }
+  git -C "$W/nutsdb" apply "$patch" 2>/dev/null || git -C "$W/nutsdb" apply -3 "$patch" >/dev/null 2>&1 || { echo "$name: patch does not apply"; exit 2; }
 fi
 # private VERIF_ROOT: harness copy with the replace directive pointing at the scratch tree
 mkdir -p "$W/root/bin" "$W/root/evidence"
